@@ -46,6 +46,12 @@ CHECKS = {
    text="Limit-biased spans (every unit up to its documented limit, both signs, all unit mixes) and absolute durations (up to i64 seconds) are added to / subtracted from dates, datetimes and clock times through checked, saturating, wrapping and operator forms and series; each result (or error) is compared with exact arithmetic on day counts and nanoseconds-of-day.",
    note="Trusted: refarith.rs + refcal.rs. Sampled, not exhaustive.",
    design="DESIGN.md section 3 C08"),
+ "C09": dict(
+   technique="round-trip property (parse(print(v)) == v) over proptest-generated values and printer options, plus an independent RFC 3339 reader written from the ABNF as a differential oracle",
+   category="exploration",
+   text="Timestamps with every sub-second precision, civil dates/times/datetimes, and zoned datetimes in every database zone around every transition (35% placed inside a fold, on either pass; all sub-minute-offset periods) are printed and parsed back; instant, civil fields, offset and zone must be identical, reduced precision must equal truncation, and an independent reader must decode the same instant.",
+   note="Folds whose two offsets round to the same minute cannot be distinguished by RFC 3339 text (inherent to the format): not judged, counted. Zones are those reachable by name through the global database.",
+   design="DESIGN.md section 3 C09"),
  "C10": dict(
    technique="proptest generation of (value on/near the rounding grid, unit, mode, increment incl. illegal ones) against exact integer rounding written from the mode definitions; Zoned oracle via the reference zone reader",
    category="exploration",
